@@ -36,8 +36,10 @@ theorem enters_walkEdges (rec : String → WalkRes) (name : String) (h : ∀ t, 
       split
       · split
         · exact h t
-        · simp only [enters_append, h t, List.nil_append]
-          exact enters_walkEdges rec name h es _
+        · split
+          · exact h t
+          · simp only [enters_append, h t, List.nil_append]
+            exact enters_walkEdges rec name h es _
       · exact enters_walkEdges rec name h es sc
 
 theorem enters_walk (f : Flow) (o : Oracle) (d : Dir) : ∀ (fuel : Nat) (k : String),
@@ -64,12 +66,10 @@ theorem enters_executeFlow (f : Flow) (o : Oracle) (d : Dir) (fuel : Nat) (sf : 
   · rfl
   · split
     · rfl
-    · split
-      · rfl
-      · simp only [enters, List.filterMap_cons]
-        have := enters_walk f o d fuel
-        simp only [enters] at this
-        rw [this]
+    · simp only [enters, List.filterMap_cons]
+      have := enters_walk f o d fuel
+      simp only [enters] at this
+      rw [this]
 
 theorem err_none_of_not_isSome {e : Option ExecErr} (h : ¬ e.isSome = true) : e = none := by
   cases e <;> simp_all
